@@ -40,6 +40,9 @@ class Scheduler:
         self.free_run = False  # watchdog fired: let everything run
         self.installed = False
         self.wait_limit = 30.0
+        self.last_site: Optional[Tuple[str, int]] = None
+        self.built: Dict[int, bool] = {}  # logical thread id -> its program is constructed (set by the thread's body)
+        self.site_code: Optional[Dict[Tuple[str, int], object]] = None  # when a dict: site -> code object (profiling runs)
         self.site_log: Optional[List[Tuple[str, int]]] = None  # when a list: the site of every point, in order (profiling runs)
 
     # ---- sys.monitoring plumbing
@@ -78,6 +81,9 @@ class Scheduler:
             self.sites.add(site)
             if self.site_log is not None:
                 self.site_log.append(site)
+            self.last_site = site
+            if self.site_code is not None and site not in self.site_code:
+                self.site_code[site] = code
             if self.current != lid:
                 # should not happen: a thread runs only with the baton; tolerate (first entry)
                 self._wait_for_baton(lid)
@@ -106,6 +112,7 @@ class Scheduler:
         self.points = 0
         self.points_by_thread = {}
         self.switches = []
+        self.built = {}
         self.free_run = False
         self.policy = policy
         self.alive = list(range(len(bodies)))
@@ -149,6 +156,57 @@ class Scheduler:
         self.policy = None
         return ok and not self.free_run
 
+    def run_fast(self, code, line: int, occurrence: int, body_a, body_b, armed=None, timeout: float = 60.0):
+        """Single preemption without the baton machinery: LINE events are enabled for ONE code object only; when the thread running
+        body_a is about to execute `line` of it for the `occurrence`-th time (counted while armed() is true, if given), body_b is run
+        to completion in another thread, then body_a continues.  Everything else runs at full speed, unobserved.
+        Returns (switched, finished): whether the preemption point was reached, and whether both bodies finished in time."""
+        was_installed = self.installed
+        if not was_installed:
+            mon.use_tool_id(TOOL, "verifmon-sched")
+        mon.set_events(TOOL, 0)
+        st = {"a": None, "seen": 0, "switched": False, "finished": True}
+
+        def cb(c, ln):
+            if st["switched"] or ln != line or c is not code or threading.get_ident() != st["a"]:
+                return None
+            if armed is not None and not armed():
+                return None
+            st["seen"] += 1
+            if st["seen"] == occurrence:
+                st["switched"] = True
+                tb = threading.Thread(target=body_b, name="verif-fast-b", daemon=True)
+                tb.start()
+                tb.join(timeout)
+                if tb.is_alive():
+                    st["finished"] = False
+            return None
+
+        mon.register_callback(TOOL, mon.events.LINE, cb)
+        mon.set_local_events(TOOL, code, mon.events.LINE)
+        try:
+
+            def run_a():
+                st["a"] = threading.get_ident()
+                body_a()
+
+            ta = threading.Thread(target=run_a, name="verif-fast-a", daemon=True)
+            ta.start()
+            ta.join(timeout)
+            if ta.is_alive():
+                st["finished"] = False
+        finally:
+            mon.set_local_events(TOOL, code, 0)
+            if was_installed:
+                mon.register_callback(TOOL, mon.events.LINE, self._on_line)
+                mon.set_events(TOOL, mon.events.LINE)
+            else:
+                mon.register_callback(TOOL, mon.events.LINE, None)
+                mon.free_tool_id(TOOL)
+        if not st["switched"] and st["finished"]:
+            body_b()  # the point was not reached: B still runs (alone), so that both outcome lists are complete
+        return st["switched"], st["finished"]
+
     def trace_key(self) -> str:
         return ";".join(f"{a}>{b}@{n}" for a, b, n in self.switches)
 
@@ -164,6 +222,24 @@ def single_preemption(at_point: int, a: int = 0, b: int = 1):
     def policy(s, lid, n):
         if lid == a and n == at_point:
             return b
+        return None
+
+    return policy
+
+
+def preempt_at_site(site, occurrence: int = 1, a: int = 0, b: int = 1, first_after_built: bool = False):
+    """Thread a runs until it is about to execute source line `site` (file, line) for the `occurrence`-th time, then b runs to
+    completion, then a resumes.  Unlike a point index this does not depend on how many lines a executed before.
+    first_after_built: occurrences are counted only after thread a has set `s.built[a]` (its program is constructed)."""
+    seen = [0]
+
+    def policy(s, lid, n):
+        if first_after_built and not s.built.get(a):
+            return None
+        if lid == a and s.last_site == site:
+            seen[0] += 1
+            if seen[0] == occurrence:
+                return b
         return None
 
     return policy
